@@ -217,8 +217,13 @@ class cstruct:
         Raises:
             ValueError: If the type already exists.
         """
-        if not replace and (name in self.typedefs and self.resolve(self.typedefs[name]) != self.resolve(type_)):
-            raise ValueError(f"Duplicate type: {name}")
+        if not replace and name in self.typedefs:
+            if self.resolve(self.typedefs[name]) != self.resolve(type_):
+                raise ValueError(f"Duplicate type: {name}")
+
+            # Re-declaration with the same target: keep the existing entry
+            # Re-pointing it at a reference that resolves through this very name would create an alias cycle
+            return
 
         self.typedefs[name] = type_
 
